@@ -404,7 +404,7 @@ class Recorder:
                 r = rec.saved['decode'](s, message, ecc, k=k, **kw)
             except BaseException as x:
                 if rec.idx.get(id(s), (-1,))[0] == main_idx:
-                    rec.calls.append(['D', k or s.k, m0.hex(), e0.hex(), None, type(x).__name__])
+                    rec.calls.append(['D', k or s.k, m0.hex(), e0.hex(), None, type(x).__name__ + ': ' + str(x)[:70]])
                 raise
             if rec.idx.get(id(s), (-1,))[0] == main_idx:
                 rec.calls.append(['D', k or s.k, m0.hex(), e0.hex(), [bytes(r[0]).hex(), bytes(r[1]).hex()], None])
